@@ -349,6 +349,13 @@ func runC15(w *mon.W) {
 		default:
 			rec := randGFF(r, 1+r.Intn(600))
 			lay := rec.writeGFF(r)
+			if r.Intn(8) == 0 {
+				// an annotation-only file: features without the sequence they lie on
+				if i := strings.Index(lay, "##FASTA"); i > 0 {
+					lay = lay[:i]
+					w.Add("gff_inputs_without_fasta_section", 1)
+				}
+			}
 			var g poly.Sequence
 			if p := mon.Try(func() { g = gff.Parse([]byte(lay)) }); p != "" {
 				w.Add("parse_panics_skipped", 1)
